@@ -21,7 +21,9 @@ ASSUMPTIONS = ["maps that would produce duplicate names are not generated"]
 MIN_NONTRIVIAL = {"quick": 70, "thorough": 700}
 REQUIRED_FEATURES = ["encoding:enum", "encoding:int", "map:swap", "map:longer-name", "map:shorter-name", "map:rename-back",
                      "map:partial", "chain:>1", "check:live-object", "check:reopened",
-                     "many-contigs:enum-to-int-fallback", "location:nested-group", "location:nested-group+root-cooler"]
+                     "many-contigs:enum-to-int-fallback", "location:nested-group", "location:nested-group+root-cooler",
+                     "map:same-dict-object-applied-to-two-coolers", "cooler-object:constructed-with-h5py-options",
+                     "map:unstorable-name-refused"]
 
 
 def plan(tier, seed):
@@ -100,7 +102,11 @@ def one_chain(ctx, cid, rng, idx):
     with ctx.case(cid, {"bt": bt, "symm": symm, "encoding": enc, "chain": chain}) as c:
         c.feature(f"encoding:{enc}")
         c.feature("location:root" if group == "/" else "location:nested-group" + ("+root-cooler" if root_too else ""))
-        clr = cooler.Cooler(uri)
+        # the object may carry h5py options for its own (read) accesses; renaming opens the file for writing itself
+        okw = [{}, {}, {"mode": "r"}, {"mode": "r+"}, {"driver": "core", "backing_store": False}][int(rng.integers(5))]
+        clr = cooler.Cooler(uri, **okw)
+        if okw:
+            c.feature("cooler-object:constructed-with-h5py-options")
         dig0 = raw_nonname_digest(path, group)
         root_dig0 = h5state.digest_uri(path, "/") if root_too else None
         snap0 = snapshot(clr, names)
@@ -171,6 +177,17 @@ def one_chain(ctx, cid, rng, idx):
             if len(set(new_cur)) != len(new_cur) or not mp:
                 continue
             chain.append(dict(mp))
+            if len(mp) >= 2 and rng.random() < 0.35:
+                # one alias map (the same dict object) applied to several coolers in turn; the first one
+                # has only some of the chromosomes the map names
+                first = list(mp)[0]
+                side = ctx.path()
+                make_cooler(side, [[first, [0, 5, 10]]], {(0, 1): 2})
+                cooler.rename_chroms(cooler.Cooler(side), mp)
+                c.check(cooler.Cooler(side).chromnames == [mp[first]], "chromnames-wrong:side-cooler",
+                        f"side cooler with chromosome {first!r} after rename_chroms({mp}): {cooler.Cooler(side).chromnames}")
+                os.remove(side)
+                c.feature("map:same-dict-object-applied-to-two-coolers")
             cooler.rename_chroms(clr, mp)
             orig_of = {mp.get(k_, k_): v for k_, v in orig_of.items()}
             gone = [x for x in cur if x not in new_cur]
